@@ -39,6 +39,9 @@ def project_ds(runner, k, ndim):
   out = []
   for P in hs.stats["p0"].preconditioners:
     P = np.asarray(P)
+    if P.shape[0] == P.shape[1] and P.shape[0] <= k + 2:
+      out.append({"dense": True})      # axis too small to sketch: ordinary Shampoo statistics (not judged here)
+      continue
     V, lam, inv, const, tail, hz = [np.asarray(x) for x in ds._fd_low_rank_unpack(jnp.asarray(P), k)]
     out.append({"V": V, "lam": lam, "tail": tail, "arg": fc.inv_to_arg(inv, 2 * ndim),
                 "targ": fc.inv_to_arg(const, 2 * ndim), "hz": bool(hz),
@@ -110,7 +113,7 @@ def handle(job):
         e0 = fc.Exp(st, shape[0], cfg["bd"])
         posed = e0.t > 1e-3 * e0.scale
         if (impl == "dsrun" and not job.get("mixed") and o.get("beta1", 0.0) == 0.0 and si >= o["Start"]
-            and np.any(G32) and posed):
+            and np.any(G32) and posed and not any(pr.get("dense") for pr in projs)):
           # the emitted update (no momentum, no weight decay; grafting only rescales) must point along the
           # gradient preconditioned by the roots stored at this very step (P = 1, replicated mode)
           uu = -np.asarray(runner.host_update(u)["p0"], np.float64)
@@ -122,6 +125,8 @@ def handle(job):
             if dev > 1e-3:
               bad.append([si, -1, "update_is_not_the_fd_preconditioned_gradient", dev])
         for a, pr in enumerate(projs):
+          if pr.get("dense"):
+            continue
           e = fc.Exp(st, shape[a], cfg["bd"])
           eps = 0.0
           if impl == "tfrun":
